@@ -65,6 +65,12 @@ def gen_case(idx: int, seed: int, tier: str) -> Any:
     if idx % 10 == 2:
         return {"kind": "aftermath", "backend": rng.choice(["asyncio", "trio"]), "first": rng.choice(["failure", "timeout", "shielded_stall", "two_failures"]),
                 "where": rng.choice(["root", "child"]), "gap": rng.choice([0, 0.5, 30])}
+    if idx % 5 == 3 and rng.random() < 0.2:
+        # the same with *long* times: a start-up of hours under a time-out of hours (or days) is timed like any other
+        return {"kind": "nested", "backend": rng.choice(["asyncio", "trio"]), "where": rng.choice(["prepare", "start"]), "host": rng.choice(["root", "child"]),
+                "inner_timeout": rng.choice([3600.5, 7200.5, 100000.5]), "stall": rng.choice([3000.0, 5000.0, 9000.0, 86400.0, "forever"]),
+                "stall_phase": rng.choice(["prepare", "start"]), "stall_depth": rng.choice([0, 1]), "outer_timeout": None, "catch": rng.random() < 0.5,
+                "pre_delay": rng.choice([0, 0.5]), "sibling_busy": rng.choice([0, 3.0]), "long": True}
     if idx % 5 == 3:
         return {"kind": "nested", "backend": rng.choice(["asyncio", "trio"]), "where": rng.choice(["prepare", "start"]), "host": rng.choice(["root", "child"]),
                 "inner_timeout": rng.choice([0.5, 1.5, 2.5]), "stall": rng.choice([0.25, 1.0, 2.0, 4.0, "forever"]), "stall_phase": rng.choice(["prepare", "start"]),
@@ -407,6 +413,8 @@ def run_nested(case: dict[str, Any]) -> dict[str, Any]:
     T, S = case["inner_timeout"], case["stall"]
     expires = S == "forever" or S > T
     c = {"nested_scenarios": 1, "nested_timeouts_expiring": int(expires), "nested_timeouts_not_expiring": int(not expires)}
+    if case.get("long"):
+        c["nested_scenarios_with_timeouts_of_an_hour_or_more"] = 1
     if not V:
         t_call = out.get("inner_called_at", 0.0)
         if expires:
